@@ -34,7 +34,8 @@ class Shape(object):
                  real: Optional[Dict[str, Any]] = None,
                  tags: Optional[List[str]] = None,
                  root2: Optional[str] = None,
-                 untracked: Optional[List[str]] = None):
+                 untracked: Optional[List[str]] = None,
+                 root_arg: bool = False):
         self.name = name
         self.root = root
         self.funs = list(stmts.keys())
@@ -63,9 +64,13 @@ class Shape(object):
         self.styles = ["direct", "eval"] if self.dpath[root] else ["keep", "eval"]
         self.root2 = root2
         self.untracked = list(untracked or [])
-        self.roots = [{"f": root, "path": root_path, "styles": self.styles}]
+        self.root_arg = bool(root_arg)
+        if self.root_arg:
+            assert not self.dpath[root], "a data function takes no argument"
+            self.param[root] = "x"
+        self.roots = [{"f": root, "path": root_path, "styles": self.styles, "arg": self.root_arg}]
         if root2:
-            self.roots.append({"f": root2, "path": root_path + "_b",
+            self.roots.append({"f": root2, "path": root_path + "_b", "arg": False,
                                "styles": ["direct", "eval"] if self.dpath[root2] else ["keep", "eval"]})
         self.check()
 
@@ -100,7 +105,8 @@ class Shape(object):
         r = Rec(
             name=self.name,
             funs=list(self.funs),
-            roots=[Rec(f=r["f"], path=r["path"], styles=list(r["styles"])) for r in self.roots],
+            roots=[Rec(f=r["f"], path=r["path"], styles=list(r["styles"]), arg=bool(r.get("arg"))) for r in self.roots],
+            hasdef={f: self.param[f] == "xdef" for f in self.funs},
             dpath=dict(self.dpath),
             stmts={f: [Rec(s) for s in self.stmts[f]] for f in self.funs},
             reads=dict(self.reads),
@@ -115,12 +121,12 @@ class Shape(object):
         return {"name": self.name, "root": self.root, "funs": self.funs, "stmts": self.stmts,
                 "reads": self.reads, "vtype": self.vtype, "dpath": self.dpath,
                 "root_path": self.root_path, "param": self.param, "real": self.real,
-                "tags": self.tags, "styles": self.styles, "root2": self.root2, "untracked": self.untracked}
+                "tags": self.tags, "styles": self.styles, "root2": self.root2, "untracked": self.untracked, "root_arg": self.root_arg}
 
     @staticmethod
     def from_json(d: Dict[str, Any]) -> "Shape":
         return Shape(d["name"], d["root"], d["stmts"], d["reads"], d["vtype"], d["dpath"],
-                     d["root_path"], d.get("real"), d.get("tags"), d.get("root2"), d.get("untracked"))
+                     d["root_path"], d.get("real"), d.get("tags"), d.get("root2"), d.get("untracked"), d.get("root_arg", False))
 
 
 def class_candidates(shape: "Shape") -> List[str]:
@@ -167,6 +173,14 @@ def core_shapes() -> List[Shape]:
          "f2": [], "f3": [], "f4": [], "f5": []},
         reads={"f1": ["v1"], "f5": ["v2"]},
         vtype={"v1": "int", "v2": "int"}, tags=["const", "kw", "default", "runtime"]))
+
+    # s_rootarg: the root itself takes an argument from its caller; inner keeps of every argument form
+    S.append(Shape(
+        "rootarg", "f1",
+        {"f1": [keep("/ra/c", "f2", "const"), keep("/ra/r", "f3", "runtime"), call("f4"), keep("/ra/d", "f5", "default")],
+         "f2": [], "f3": [], "f4": [], "f5": []},
+        reads={"f1": ["v1"], "f4": ["v2"]}, vtype={"v1": "int", "v2": "int"},
+        dpath={"f4": "/ra/f4"}, root_arg=True, tags=["root-argument", "const", "runtime", "default"]))
 
     # s_rt3: runtime argument laid out over three lines, followed by a sibling
     S.append(Shape(
